@@ -529,3 +529,8 @@ mod tests {
         quickcheck(prop as fn(_) -> _)
     }
 }
+
+#[cfg(kani)]
+pub(crate) mod verif {
+    include!(concat!(env!("LIBP2P_VERIF"), "/hooks/multistream_length_delimited.rs"));
+}
